@@ -191,7 +191,7 @@ def MarkupChildOK (Q : ANode → Prop) (x : ANode) : Prop :=
   ANode.tokensAreLeaves x = true ∧ (isExpr x = true → Q x) ∧
   (x.kind = .space ∨ x.kind = .text ∨ isExpr x = true ∨ isCommentKind x.kind = true ∨ x.kind.isPlainToken = true)
 
-theorem markupNodeStep_carries {Q : ANode → Prop} (e : Env) (r : Rec) (hr : RecOK r Q) (ctx : Ctx) (mixed : Bool)
+theorem markupNodeStep_carries {Q : ANode → Prop} (e : Env) (r : Rec) (hr : RecOK r Q) (ctx : Ctx) (hctx : NM ctx) (mixed : Bool)
     (doc : Doc) (sa : Streams) (hd : Carries doc sa) (x : ANode) (hok : MarkupChildOK Q x) :
     Post (markupNodeStep e r ctx mixed doc x) (fun d => Carries d (sa.app (specAll x))) := by
   unfold markupNodeStep
@@ -209,7 +209,7 @@ theorem markupNodeStep_carries {Q : ANode → Prop} (e : Env) (r : Rec) (hr : Re
       rw [hx, ht', specAll_text_leaf]; rfl
     · split
       · rename_i hx
-        exact Post.bind (hr.expr _ x hx (hok.2.1 hx)) (fun d h => Post.pure (hd.app h))
+        exact Post.bind (hr.expr _ x (by split <;> first | exact hctx | exact hctx.suppress) hx (hok.2.1 hx)) (fun d h => Post.pure (hd.app h))
       · split
         · rename_i hc
           refine Post.bind (commentOK e x hc) (fun d h => Post.pure (hd.app (h.congr ?_)))
@@ -228,7 +228,7 @@ theorem markupNodeStep_carries {Q : ANode → Prop} (e : Env) (r : Rec) (hr : Re
             · exact h
           exact Post.pure (hd.app (tok_carries e x hok.1 hp))
 
-theorem markupLineStep_carries {Q : ANode → Prop} (e : Env) (r : Rec) (hr : RecOK r Q) (ctx : Ctx)
+theorem markupLineStep_carries {Q : ANode → Prop} (e : Env) (r : Rec) (hr : RecOK r Q) (ctx : Ctx) (hctx : NM ctx)
     (doc : Doc) (sa : Streams) (hd : Carries doc sa) (l : MLine) (hok : ∀ x ∈ l.nodes, MarkupChildOK Q x) :
     Post (markupLineStep e r ctx doc l) (fun d => Carries d (sa.app (specAllL l.nodes))) := by
   unfold markupLineStep
@@ -240,7 +240,7 @@ theorem markupLineStep_carries {Q : ANode → Prop} (e : Env) (r : Rec) (hr : Re
     | cons x xs ih =>
       intro d0 s0 h0 hall
       simp only [List.foldlM_cons]
-      refine Post.bind (markupNodeStep_carries e r hr ctx _ d0 s0 h0 x (hall x List.mem_cons_self)) (fun d1 h1 => ?_)
+      refine Post.bind (markupNodeStep_carries e r hr ctx hctx _ d0 s0 h0 x (hall x List.mem_cons_self)) (fun d1 h1 => ?_)
       have := ih d1 _ h1 (fun y hy => hall y (List.mem_cons_of_mem _ hy))
       simpa [specAllL_cons, Streams.app_assoc] using this
   refine Post.bind (key l.nodes doc sa hd hok) (fun d h => Post.pure ?_)
@@ -322,7 +322,7 @@ theorem convMarkup_carries {Q : ANode → Prop} (e : Env) (r : Rec) (hr : RecOK 
       | cons l rest ih =>
         intro d0 s0 h0 hall
         simp only [List.foldlM_cons]
-        refine Post.bind (markupLineStep_carries e r hr _ d0 s0 h0 l (fun x hx => hall x (by
+        refine Post.bind (markupLineStep_carries e r hr _ (NM.withMode .markup (by decide)) d0 s0 h0 l (fun x hx => hall x (by
           unfold lineNodes; simp only [List.flatMap_cons, List.mem_append]; exact Or.inl hx))) (fun d1 h1 => ?_)
         have := ih d1 _ h1 (fun y hy => hall y (by
           unfold lineNodes at hy ⊢; simp only [List.flatMap_cons, List.mem_append]; exact Or.inr hy))
